@@ -157,10 +157,20 @@ func (vm *VM) directive(ctx context.Context, text *text, d Term) error {
 		text.goals = append(text.goals, arg(0))
 		return nil
 	case procedureIndicator{name: atomInclude, arity: 1}:
-		_, b, err := vm.open(arg(0), nil)
+		f, b, err := vm.open(arg(0), nil)
 		if err != nil {
 			return err
 		}
+
+		// A file that includes itself, directly or not, would go on forever until the stack overflows.
+		if _, ok := text.including[f]; ok {
+			return permissionError(operationOpen, permissionTypeSourceSink, arg(0), nil)
+		}
+		if text.including == nil {
+			text.including = map[string]struct{}{}
+		}
+		text.including[f] = struct{}{}
+		defer delete(text.including, f)
 
 		return vm.compile(ctx, text, string(b))
 	case procedureIndicator{name: atomEnsureLoaded, arity: 1}:
@@ -228,6 +238,9 @@ type text struct {
 	buf     clauses
 	clauses map[procedureIndicator]*userDefined
 	goals   []Term
+
+	// including is the files that are being included at the moment.
+	including map[string]struct{}
 }
 
 func (t *text) forEachUserDefined(pi Term, f func(u *userDefined)) error {
